@@ -678,6 +678,6 @@ func run(c Case) vt.Verdict {
 
 func TestProp(t *testing.T) {
 	vt.Run(t, prop,
-		vt.Sub[Case]{Prop: prop, Name: "programs", Gen: genCase, Run: run, Classify: classify}.WithBudget(38, 640),
+		vt.Sub[Case]{Prop: prop, Name: "programs", Gen: genCase, Run: run, Classify: classify}.WithBudget(100, 640),
 	)
 }
